@@ -10,6 +10,8 @@ embedded mux's model state and the base monitor's history live there (`b.muxes[0
 universal layer's own operations run `IceModel.UniMux.step` on that state plus the layer's table, and the
 monitor `IceSpec.C12Uni.step` on the IMPLEMENTATION's output.
 
+`new <ap> <ttl> s` selects the STRICT reading of the monitor for the session (default: the letter of C12).
+
 Every output is `<main>` followed by ` u=<server key>:<v>` if a table entry's mapped address was written
 and ` x<k>=<result>` for the `GetXORMappedAddr` calls that returned during the operation.
 -/
@@ -103,12 +105,16 @@ def unparsable : Verdict := .uni "uni_answer: unparsable effects in the output"
 
 def stepCore (st : State) (toks : List String) (impl : String) : State × Res :=
   match toks with
-  | ["new", ap, ttl] =>
+  | "new" :: ap :: ttl :: mode =>
     match ttl.toNat? with
     | none => (st, bad "udpmuxuni new: ttl")
     | some ttl =>
+      if mode ≠ [] ∧ mode ≠ ["s"] then (st, bad "udpmuxuni new: mode") else
       let (b, _) := Driver.UdpMux.stepCore {} ["new", "u", ap] "ok"
-      ({ active := true, b := b, x := IceModel.UniMux.init ttl, m := UState.init }, mon none "ok")
+      -- `s`: the strict reading of the monitor; default: the letter of C12 (base clauses on every datagram) plus
+      -- the clauses about the layer doing its job
+      ({ active := true, b := b, x := IceModel.UniMux.init ttl, m := { UState.init with strict := mode = ["s"] } },
+       mon none "ok")
   | ["end"] => ({}, mon none "end ok")
   | _ =>
   if !st.active then (st, bad "udpmuxuni: no session") else
